@@ -1032,7 +1032,37 @@ def gen_events_reuse(rng, tier, shard, nshards, boost):
             yield {"events": ev, "labels": d["labels"], "calls": calls}
 
 
+def check_index_labels(inp):
+    """the documented contract of index_labels: `labels[i] == index_to_label[indices[i]]` (after `str(.).lower()` unless
+    case_sensitive), equal labels <-> equal indices, indices are the ranks of the labels in sorted order (0 .. k-1)"""
+    labels, cs = list(inp["labels"]), bool(inp["case_sensitive"])
+    try:
+        idx, back = mir_eval.util.index_labels(list(labels), case_sensitive=cs)
+    except Exception as e:  # noqa: BLE001
+        return "index_labels raised %r" % (e,)
+    norm = labels if cs else [str(x).lower() for x in labels]
+    if len(idx) != len(labels):
+        return "%d indices for %d labels" % (len(idx), len(labels))
+    for i, (k, n) in enumerate(zip(idx, norm)):
+        if back.get(k) != n:
+            return "index_to_label[indices[%d]] = %r, the label is %r" % (i, back.get(k), n)
+    ranks = {n: r for r, n in enumerate(sorted(set(norm)))}
+    if list(idx) != [ranks[n] for n in norm]:
+        return "indices %r are not the ranks %r of the labels in sorted order" % (list(idx), [ranks[n] for n in norm])
+    if sorted(back) != list(range(len(ranks))):
+        return "index_to_label has keys %r for %d distinct labels" % (sorted(back), len(ranks))
+    return None
+
+
+def gen_index_labels(rng, tier, shard, nshards, boost):
+    alphabet = ["a", "A", "b", "B", "ab", "Ab", "", "c1", "C1", "Z", "z~", "seg 1", "Seg 1"]
+    for _ in range((60 if tier == "quick" else 600) * boost):
+        n = rng.randint(0, 9)
+        yield {"labels": [rng.choice(alphabet) for _ in range(n)], "case_sensitive": rng.random() < 0.5}
+
+
 CHECKERS = {
+    "util.index_labels": check_index_labels,
     "util.adjust_intervals:reuse": check_adjust_reuse,
     "util.adjust_events:reuse": check_events_reuse,
     "util.intervals_roundtrip_noisy": check_roundtrip_noisy,
@@ -1046,6 +1076,7 @@ CHECKERS = {
     "util.boundaries_roundtrip": check_roundtrip,
 }
 ORACLES = {
+    "util.index_labels": gen_index_labels,
     "util.adjust_intervals:reuse": gen_adjust_reuse,
     "util.adjust_events:reuse": gen_events_reuse,
     "util.intervals_roundtrip_noisy": gen_roundtrip_noisy,
@@ -1074,6 +1105,8 @@ def classify(suite, d):
                "merge_labeled_intervals": "merge_labeled_intervals", "boundaries_to_intervals": "boundaries",
                "interpolate_intervals": "interpolate_intervals",
                "intervals_to_samples": "intervals_to_samples"}.get(i.get("fn"))
+        if i.get("fn") == "index_labels":
+            return "util.index_labels", {"labels": i["labels"], "case_sensitive": i["case_sensitive"]}
         return classify(src, d) if src else None
     if suite == "adjust_intervals":
         ivs = [tuple(r) for r in i["intervals"]]
